@@ -30,7 +30,7 @@ WORKERS = 8  # fork + copy-on-write is slow in this sandbox (~4 s per forked chi
 
 def shards(tier, seed, scale):
     n = 8 if tier == "quick" else 16
-    return [{"histories": int((6 if tier == "quick" else 60) * scale) or 1, "pool": 130 if tier == "quick" else 200, "maxlen": 3} for _ in range(n)]
+    return [{"histories": int((6 if tier == "quick" else 60) * scale) or 1, "pool": 142 if tier == "quick" else 212, "maxlen": 3} for _ in range(n)]
 
 
 _ADDR = re.compile(r"0x[0-9a-fA-F]+")
@@ -109,7 +109,7 @@ def build_pool(rng, nprng, n, maxlen):
         pool.append({"label": label, "fname": fname, "desc": desc, "tensors": tensors, "kwargs": kwargs, "adapter": adapter})
 
     fams = G.FAMILIES + ["update"]
-    while len(pool) < max(8, n - 123):
+    while len(pool) < max(8, n - 135):
         c = G.generate(rng, nprng, family=rng.choice(fams), P={"maxlen": maxlen})
         kw = c.call_kwargs()
         if rng.random() < 0.3:
@@ -177,6 +177,10 @@ def build_pool(rng, nprng, n, maxlen):
     for dsc, tens in (("a b -> b", [x14]), ("a ... -> a", [x12]), ("a b -> a b", [x]), ("a b", [x]), ("a [b]", [x]), ("b... -> b...", [x])):
         for opn, kw_ in (("sum", {}), ("mean", {}), ("roll", {"shift": 1}), ("flip", {}), ("max", {}), ("sort", {}), ("softmax", {}), ("id", {}), ("logsumexp", {})):
             add("same-description", opn, dsc, tens, dict(kw_))
+    # factories that live only for the duration of one call (created inside perform(), four signatures): object addresses get reused
+    for kind in ("plain", "named", "varkw", "argidx", "plain", "named"):
+        add("fresh-factory", "add", "a b, b", [x, ("__fresh_factory__", kind)], {})
+        add("fresh-factory", "multiply", "a b, a", [x, ("__fresh_factory__", kind)], {})
     add("semantic", "sort", "[a] [b]", [x], {})
     add("semantic", "dot", "a b, b c", [x, x.T], {})
     add("unknown-backend", "sum", "a [b]", [x], {"backend": "no.such"})
@@ -205,6 +209,14 @@ def perform(pool, adapters, idx, ctx, escape=False):
     import contextlib
     item = pool[idx]
     args = [np.array(t, copy=True) if isinstance(t, np.ndarray) else t for t in item["tensors"]]
+    for k_, a_ in enumerate(args):
+        if isinstance(a_, tuple) and len(a_) == 2 and a_[0] == "__fresh_factory__":
+            args[k_] = {
+                "plain": lambda: (lambda shape: np.ones(shape) * 2),
+                "named": lambda: (lambda shape, name=None: np.ones(shape) * (3 if name is not None else 1)),
+                "varkw": lambda: (lambda shape, **kw: np.ones(shape) * (10 + len(kw))),
+                "argidx": lambda: (lambda shape, arg_index=None: np.ones(shape) * (5 + (arg_index or 0))),
+            }[a_[1]]()
     if item["adapter"]:
         f = adapters[item["adapter"]]
     else:
@@ -351,7 +363,7 @@ def finalize(agg, tier, seed):
     for k in ("with_block_left_by_exception", "history_event_adapt_unrelated"):
         if c.get(k, 0) < 2:
             agg.inconclusive.append(f"history event {k} observed only {c.get(k, 0)} times")
-    groups = {"conf-": 15, "factory": 4, "adapter-axisname": 4, "same-description": 10}
+    groups = {"conf-": 15, "factory": 4, "adapter-axisname": 4, "same-description": 10, "fresh-factory": 10}
     for prefix, minimum in groups.items():
         n = sum(v for k, v in c.items() if k.startswith("label:" + prefix))
         if n < minimum:
